@@ -7,7 +7,7 @@ rule = ("all 22 indicators, periods 1..8 (thorough: sampled to 64): an active pr
         "ones, inputs are all the flat level) the output must be finite, inside the documented range, and the neutral value where one is defined "
         "(FAST 50, CCI 0, ROC 0, TR 0 exactly; MAD <= tau*M, SD <= sqrt(tau)*M, Bollinger half-width likewise). All runs also compared bit-exactly "
         "with the float model. Plus flat stretches of 900..5400 equal inputs (periods 1..14) for the EMA-based indicators: long enough for the "
-        "exponential averages to underflow. Known findings K3-K6 (ER, RSI, MFI, CCI) are classified by (indicator, kind of failure). Non-trivial: distinct case")
+        "exponential averages to underflow. For odd periods the 3n-activity case also runs with a reset() between the activity and the flat stretches. Known findings K3-K6 (ER, RSI, MFI, CCI) are classified by (indicator, kind of failure). Non-trivial: distinct case")
 assumptions = ["degeneracy of the reference window is decided by the driver from the inputs it generated (exact float comparisons)"]
 
 LEVELS = [1e-3, 1.0, 37.3, 1e6]
@@ -47,6 +47,12 @@ def gen_cases(ctx):
                     start += flen
                 cases.append(Case("%s_p%d_pre%d_%d" % (ind, p, mult, len(cases)), [new_op(0, ind, pr)] + pre + fl, dump=(),
                                   meta={"ind": ind, "p": pp, "npre": npre, "flen": flen, "lvl": lvl, "bars": bars, "vol": vol, "stretches": stretches}))
+                if mult == 3 and p % 2 == 1 and flen <= 200:
+                    # the same history, but the instance is reset() between the activity and the flat stretches: a flat window after a
+                    # reset is a flat window (stale buffers / sums must not leak into it); op indices after the reset shift by one
+                    cases.append(Case("%s_p%d_pre%d_%d_rs" % (ind, p, mult, len(cases)), [new_op(0, ind, pr)] + pre + [("r", 0)] + fl, dump=(),
+                                      meta={"ind": ind, "p": pp, "npre": npre, "flen": flen, "lvl": lvl, "bars": bars, "vol": vol,
+                                            "stretches": [(a + 1, b, c_) for (a, b, c_) in stretches], "reset": True}))
     # flat stretches long enough for the exponential averages to underflow (the 0.1 seeds of RSI reach the subnormals after
     # ~700 (n=2) ... ~5000 (n=14) equal inputs): from fresh and after activity
     for ind in ("RSI", "EMA", "SLOW", "MACD", "PPO", "ATR", "KC"):
